@@ -31,7 +31,7 @@ META = {
                   "rejected). Larger random / collection graphs (<= ~80 nodes) are sampled.",
     "level_note": "Trusted: TLC, the graph builder of harness/graphs.py (checked against a Python reference of IsDag on every "
                   "case), GraphNode.dependencies for graphs taken from collections. Bounded graph sizes; above the bound "
-                  "sampling only. A 3 s CPU-time guard turns non-termination into an observation.",
+                  "sampling only. A CPU-time guard (0.5 s, confirmed with 1 s) turns non-termination into an observation.",
 }
 
 FORMS = ("legacy", "taskspec", "mixed")
@@ -199,7 +199,7 @@ def plan_for(ctx):
         return ([job("dag", n) for n in range(1, 6)]
                 + [job("ext", n, maxext=2) for n in range(1, 5)]
                 + [job("cyc", n) for n in range(1, 4)]
-                + [job("cyc", 4, allkinds=False, stride=16, offset=off(16))])
+                + [job("cyc", 4, allkinds=False, stride=32, offset=off(32))])
     return ([job("dag", n) for n in range(1, 6)] + [job("dag", 6, stride=8, offset=off(8))]
             + [job("ext", n, maxext=2) for n in range(1, 5)] + [job("ext", 5, maxext=2, stride=8, offset=off(8))]
             + [job("cyc", n) for n in range(1, 4)]
@@ -214,7 +214,7 @@ def forms_for(case, rng, all_forms_upto):
 
 
 def enumerated(ctx, plan=None, all_forms_upto=None, unsat_n=None):
-    """TLC design check + case export; returns [(case, [variants])], #cases, sampled?"""
+    """TLC design check + case export; returns [(case, [variants])], #cases, the plan"""
     plan = plan_for(ctx) if plan is None else plan
     all_forms_upto = ctx.pick(4, 5) if all_forms_upto is None else all_forms_upto
     consts = {"Plan": plan, "UnsatN": ctx.pick(3, 4) if unsat_n is None else unsat_n}
@@ -227,10 +227,12 @@ def enumerated(ctx, plan=None, all_forms_upto=None, unsat_n=None):
     fams = {c["fam"] for c, _ in items}
     if not {"dag", "ext", "cyc"} <= fams and len(plan) > 3:
         raise MachineryError("case enumeration is missing a family: %s" % sorted(fams))
-    return items, len(items), any(j["stride"] > 1 for j in plan)
+    return items, len(items), plan
 
 
 def run_items(ctx, items, prefix):
+    import dask.order  # noqa: F401 - import before forking
+    G.prepare_fork()
     out = pmap(_work, items, chunk=256)
     recs = []
     for (case, _vs), res in zip(items, out):
@@ -347,7 +349,8 @@ def collection_records(ctx):
 
 # --------------------------------------------------------------------------- entry points
 def run(ctx):
-    items, total, sampled = enumerated(ctx)
+    items, total, plan = enumerated(ctx)
+    sampled = any(j["stride"] > 1 for j in plan)
     recs = run_items(ctx, items, "e")
     del items
     for fam in ("dag", "ext", "cyc"):
@@ -364,13 +367,13 @@ def run(ctx):
     ctx.extra["cases_enumerated_by_tlc"] = total
     ctx.extra["enumeration_plan"] = plan_for.__doc__.split("\n")[0] + " " + json.dumps(
         [[j["fam"], j["n"], "all kinds" if j["allkinds"] else "all-task/all-plain", "stride %d" % j["stride"]]
-         for j in plan_for(ctx)])
+         for j in plan])
     ctx.rule = ("cases = TLC-enumerated (graph, kinds, external refs) x spelling (legacy / Task objects / mixed; scrambled names, "
                 "insertion order, alias-vs-list, return_stats) plus seeded random and collection-derived graphs; every call is one "
                 "record decided by TLC; non-trivial = at least 3 keys and 2 edges; distinct by (graph, kinds, spelling)")
     ctx.assumptions = ["TLC evaluates the contract correctly", "harness/graphs.build constructs the graph the case describes",
                        "GraphNode.dependencies is right for collection-derived graphs (C08)",
-                       "a call that burns 3 s of CPU without returning does not terminate"]
+                       "a call that burns 0.5 s and then again 1 s of CPU without returning does not terminate"]
 
 
 def replay(ctx, obj):
@@ -393,20 +396,16 @@ def selftest(ctx):
     from ..srcmut import mutant
     ok = True
     # a fixed small case set: all DAGs with <= 4 nodes x kinds, 1 external ref, cyclic n <= 3
-    sets = []
-    for fam, consts, forms in (("dag", {"N": 4, "MaxExt": 0, "AllKinds": True, "UnsatN": 3}, FORMS),
-                               ("ext", {"N": 3, "MaxExt": 1, "AllKinds": True, "UnsatN": 3}, ("taskspec", "mixed")),
-                               ("cyc", {"N": 3, "MaxExt": 0, "AllKinds": False, "UnsatN": 3}, FORMS)):
-        items, _, _ = enumerated(ctx, fam, consts, forms, 10 ** 9)
-        sets.append((fam, items))
+    plan = ([job("dag", n) for n in range(1, 5)] + [job("ext", n, maxext=1) for n in range(1, 4)]
+            + [job("cyc", n, allkinds=False) for n in range(1, 4)])
+    items, _, _ = enumerated(ctx, plan, all_forms_upto=9, unsat_n=3)
 
     def signatures(tag):
         sigs = {}
-        for fam, items in sets:
-            recs = run_items(ctx, items, tag + fam)
-            for r, clauses in judge(ctx, recs):
-                sigs.setdefault(classify(r, clauses), 0)
-                sigs[classify(r, clauses)] += 1
+        recs = run_items(ctx, items, tag)
+        for r, clauses in judge(ctx, recs):
+            sg = classify(r, clauses)
+            sigs[sg] = sigs.get(sg, 0) + 1
         return sigs
 
     base = signatures("b")
